@@ -128,6 +128,30 @@ def check_C01(c):
                 c.violation("implementation-vs-property", "deep input (%s build, 2 MiB stack): %s" % (prof, a[:20]),
                             {"request": r[:200] + ("…" if len(r) > 200 else ""), "implementation": a[:100],
                              "input_text_prefix": unhx(r.split("\t")[-1])[:80]})
+    # tall trees built through *map keys* (every level: a long left chain on top of a map whose key is the level below) —
+    # nesting stays small, the tree grows tall: the height limit must stop it — and undecided `&&` / `||` chains, whose
+    # evaluation is linear in their length (an evaluator that visits an operand twice per level would take 2^n steps)
+    def mapkey(levels, chain=120):
+        t_ = "1"
+        for _ in range(levels):
+            t_ = "{" + t_ + "+1" * chain + ":1}"
+        return t_
+    tall = [mapkey(k_) for k_ in (1, 2, 3, 10, 100)] + [mapkey(60, 2), mapkey(130, 1)]
+    andor = [" && ".join(["true"] * k_) for k_ in (8, 40, 64, 127)] + [" || ".join(["false"] * k_) for k_ in (40, 64, 127)] + \
+            ["x = " + " && ".join(["b"] * 90) + "; x", " && ".join(["(true || false)"] * 50)]
+    extra = [expr_req(t_) for t_ in tall] + ["DESCR\t" + hx(t_) for t_ in tall]
+    ex_reqs = ["CTX\tc\t((62 v (b 1)))"] + ["EXEC\tc\t" + hx(t_) for t_ in tall + andor]
+    for prof in (("debug",) if c.quick() else ("debug", "release")):
+        impl4 = run_impl(extra + ex_reqs, profile=prof, timeout=120, stack=2 << 20, max_aborts=3)
+        for r, a in zip(extra + ex_reqs, impl4):
+            c.count(prof + r[:200])
+            if outcome_class(a):
+                c.violation("implementation-vs-property", "tall / long input (%s build, 2 MiB stack): %s" % (prof, a[:20]),
+                            {"request": r[:200] + ("…" if len(r) > 200 else ""), "implementation": a[:100],
+                             "input_text_prefix": unhx(r.split("\t")[-1])[:80]})
+    model4 = run_model(extra[:4] + ex_reqs)
+    impl4d = run_impl(extra[:4] + ex_reqs, timeout=120, stack=2 << 20, max_aborts=3)
+    c.add_stream(Stream("tall map-key trees and undecided && / || chains", extra[:4] + ex_reqs, impl4d, model4, numeric=False))
     model3 = run_model(deep[: len(deep) // 2 * 2 : 4])  # model side on a subset (fuel-based, slower)
     impl3d = run_impl(deep[: len(deep) // 2 * 2 : 4], timeout=900, stack=2 << 20)
     c.add_stream(Stream("deep shapes (every 4th) EXPR/DESCR", deep[: len(deep) // 2 * 2 : 4], impl3d, model3, numeric=False))
